@@ -21,5 +21,6 @@ import Evenio.Props.C19
 import Evenio.Props.C20
 import Evenio.Proofs.Inv.All
 import Evenio.Props.ReachLists
+import Evenio.Props.ReachStore
 /-! Every property module in one environment (same import list as AllProofs.lean).  `lake build Evenio.All` checks
     that no two proof modules declare the same name with different statements. -/
